@@ -15,6 +15,7 @@ from cyverif.pyvc import Event, Executor, Obj, Opaque, State, SymDict, SymList, 
 
 from cyecca.sim import uros
 from cyecca.estimate.attitude import estimator as est_mod
+from cyecca.estimate.attitude import simulator as sim_mod
 
 
 def unwrap(f):
@@ -250,24 +251,55 @@ class SetParamJob(VCJob):
         evs = [e for e in fu[0].events if e.kind == "get_param"]
         oku = len(fu) == 1 and fu[0].heap[("p", "value")] is stored and len(evs) == 1 and evs[0].args[0] is pname
         R.append(Result(self.id, "Param.update: value := core.get_param(own name)", PROVED if oku else REFUTED, "PYVC", "", 0.0, "syntactic", None if oku else {"inputs": {}}, 1))
-        # --- params_callback of a node: every parameter of param_list is updated (bounded: representative list of 3 parameters)
-        exc = Executor(unwrap(est_mod.AttitudeEstimator.params_callback), event_calls=lambda d: "update" if d.endswith(".update") else None)
-        s4 = State()
-        node = Obj("node")
-        plist = [Obj("p0"), Obj("p1"), Obj("p2")]
-        s4.locals.update({"self": node, "msg": Obj("msg")})
-        s4.heap[("node", "param_list")] = plist
-        fc = exc.run(s4)
-        evs = [e for e in fc[0].events if e.kind == "update"]
-        okc = len(fc) == 1 and [e.callee for e in evs] == ["p.update"] * 3
-        R.append(Result(self.id, "[bounded: list of 3] params_callback calls update() once on every parameter of the node", PROVED if okc else REFUTED, "PYVC", "", 0.0,
-                        f"{len(evs)} update calls", None if okc else {"inputs": {}}, 1))
+        # --- params_callback of a node: update() is called exactly once on every parameter of param_list, in list order,
+        #     for a parameter list of ARBITRARY length (loop invariant on the ghost call trace)
+        for cls in (est_mod.AttitudeEstimator, sim_mod.Simulator):
+            exc = Executor(unwrap(cls.params_callback))
+            s4 = State()
+            node = Obj("node")
+            plist = SymList("param_list")
+            s4.locals.update({"self": node, "msg": Obj("msg")})
+            s4.heap[("node", "param_list")] = plist
+            len0, c0, a0 = s4.tr_len, s4.tr_callee, s4.tr_arg
+            fc = exc.run(s4)
+            for name_, assum, goal in s4.vcs:
+                R.append(self.vc(f"{cls.__name__}.params_callback {name_}", assum, goal))
+            okp = len(fc) == 1 and fc[0].outcome is None and [e.callee for e in fc[0].events if e.kind == "loop"] == ["loop-deliveries:update"]
+            R.append(Result(self.id, f"{cls.__name__}.params_callback: one path, the loop calls <parameter>.update()", PROVED if okp else REFUTED, "PYVC", "", 0.0,
+                            f"{len(fc)} path(s), events {[e.callee for e in fc[0].events] if fc else []}", None if okp else {"inputs": {}}, 1))
+            if okp:
+                f = fc[0]
+                j, k = z3.Ints("jp kp")
+                n, L = plist.n, plist.arr
+                goal = z3.And(f.tr_len == len0 + n,
+                              z3.ForAll([j], z3.Implies(z3.And(j >= 0, j < n), f.tr_callee[len0 + j] == L[j])),
+                              z3.ForAll([k], z3.Implies(z3.And(k >= 0, k < len0), z3.And(f.tr_callee[k] == c0[k], f.tr_arg[k] == a0[k]))))
+                R.append(self.vc(f"{cls.__name__}.params_callback: update() exactly once on every parameter of the list, in order, nothing else (any list length)",
+                                 list(f.pc) + [len0 >= 0, n >= 0], goal, self.witness_params(cls)))
         return R
 
     def witness(self, model):
         core = uros.Core()
         core.init_params() if False else None
         return {"inputs": {"case": "set_param contract"}}
+
+    def witness_params(self, cls):
+        def w(model):
+            calls = []
+
+            class P:
+                def __init__(self, i):
+                    self.i = i
+
+                def update(self):
+                    calls.append(self.i)
+
+            class Node:
+                param_list = [P(i) for i in range(4)]
+
+            unwrap(cls.params_callback)(Node(), None)
+            return None if calls == [0, 1, 2, 3] else {"inputs": {"case": "4 parameters", "update_calls": calls, "expected": [0, 1, 2, 3]}}
+        return w
 
 
 # =====================================================================================================
@@ -468,7 +500,7 @@ ASSUMPTIONS = [
     "callbacks are opaque deliveries recorded in the ghost trace; by the pub_sub_locked invariant they do not change the subscriber registry; re-entrant publication on the same topic from inside a callback is excluded (requires)",
     "frame assumption for the estimator callbacks: the CasADi step functions, numpy helpers, uros.check_nan, print and message-payload assignments do not write t_last_imu / t_last_accel / t_last_mag / initialized",
     "Logger timing relies on the ASSUMED simpy contract (env.now non-decreasing; Timeout(d) resumes at now + d, d >= 0): with it, rows have non-decreasing time, one per period, holding the latest message of each topic",
-    "params_callback over a list of parameters is checked for a representative list of 3 (bounded, labelled); 'every node that follows the parameter topic sees the value' = publish delivery (proved) + params_callback + Param.update + get_param contracts",
+    "'every node that follows the parameter topic sees the value' = publish delivery (proved) + params_callback (proved for any list length, AttitudeEstimator and Simulator) + Param.update + get_param contracts",
     "whole-history delivery order across several publications follows from the per-call contract because publish is synchronous (no queue); simultaneous simpy events are serialised by the scheduler (assumed)",
 ]
-BOUNDED = ["params_callback: representative parameter list of length 3"]
+BOUNDED = []
